@@ -8,6 +8,10 @@
 // runs the real pipeline: JSON action decoders -> account.MergeSpendAction -> txbuilder.Build ->
 // txbuilder.Sign (once per signer) -> validation.ValidateTx at the next height. The oracle
 // (oracle.go) is plain arithmetic over the transaction's inputs and outputs.
+//
+// Second part (chain.go): the chain-transaction path (build-chain-transactions: SpendAccountChain /
+// buildBtmTxChain). Enumerated: how many BTM outputs the account holds and on which of its external and
+// change addresses every one of them sits; every transaction of the built chain is signed and validated.
 package main
 
 import (
@@ -36,6 +40,7 @@ func main() {
 	run.Set("action_lists_enumerated", stats.total)
 	run.Set("action_lists_in_domain", len(lists))
 	run.Set("action_lists_out_of_domain", stats.reasons)
+	chain, chainFamilies := chainCases(run)
 
 	workers := runtime.NumCPU()
 	if workers > 6 {
@@ -51,6 +56,7 @@ func main() {
 	}
 
 	results := make([]*caseResult, len(cases))
+	chainResults := make([]*caseResult, len(chain))
 	var wg sync.WaitGroup
 	var mu sync.Mutex
 	next := 0
@@ -63,13 +69,18 @@ func main() {
 				i := next
 				next++
 				mu.Unlock()
-				if i >= len(cases) {
+				if i >= len(cases)+len(chain) {
 					return
 				}
 				if i%32 == 0 && run.OutOfTime() {
 					return
 				}
-				results[i] = w.runCase(cases[i], false)
+				// the chain-transaction cases come first: they are the smaller part
+				if i < len(chain) {
+					chainResults[i] = w.runChain(chain[i])
+				} else {
+					results[i-len(chain)] = w.runCase(cases[i-len(chain)], false)
+				}
 			}
 		}(w)
 	}
@@ -101,8 +112,35 @@ func main() {
 			run.Violation(v.Key, v.What+" | "+cases[i].String(), map[string]interface{}{"case": cases[i].describe(), "tx": r.Summary, "detail": v.Detail})
 		}
 	}
-	if done < len(cases) {
-		run.Capped(fmt.Sprintf("time budget: %d of %d cases run", done, len(cases)))
+	chainDone := 0
+	chainOutcomes := map[string]int{}
+	chainLevels := map[string]bool{}
+	for i, r := range chainResults {
+		if r == nil {
+			continue
+		}
+		chainDone++
+		run.Add("evaluations", 1)
+		run.Add("signatures_made", r.Sigs)
+		if r.Nontrivial {
+			nontrivial[chain[i].String()] = true
+		}
+		outcomeCount[r.Outcome]++
+		chainOutcomes[r.Outcome]++
+		if r.Outcome != "" && !chainLevels[r.Outcome] && len(r.Viols) == 0 && len(chainLevels) < 4 {
+			chainLevels[r.Outcome] = true
+			run.Sample(map[string]interface{}{"case": chain[i].describe(), "outcome": r.Outcome, "tx": r.Summary})
+		}
+		for _, v := range r.Viols {
+			run.Violation(v.Key, v.What+" | "+chain[i].String(), map[string]interface{}{"case": chain[i].describe(), "tx": r.Summary, "detail": v.Detail})
+		}
+	}
+	run.Set("chain_cases", len(chain))
+	run.Set("chain_cases_run", chainDone)
+	run.Set("chain_layouts_per_family", chainFamilies)
+	run.Set("chain_outcome_counts", chainOutcomes)
+	if done < len(cases) || chainDone < len(chain) {
+		run.Capped(fmt.Sprintf("time budget: %d of %d action-list cases and %d of %d chain cases run", done, len(cases), chainDone, len(chain)))
 	}
 	ocs := make([]string, 0, len(outcomeCount))
 	for k := range outcomeCount {
@@ -117,7 +155,7 @@ func main() {
 	run.Set("distinct_list_shapes", len(shapeCount))
 	run.Set("cases", len(cases))
 	run.Set("distinct_nontrivial", len(nontrivial))
-	run.Set("rule", "case = (ordered action list, funding-set shape per spent (account, asset/vote) source, placement of the funding outputs + use_unconfirmed flag, which keys sign); lists are ALL sequences of <= max_actions alphabet entries that pass the balance predicate; a case is non-trivial when the built transaction has >= 2 inputs or at least one change output (selection or change arithmetic was exercised)")
+	run.Set("rule", "two case families. (1) case = (ordered action list, funding-set shape per spent (account, asset/vote) source, placement of the funding outputs + use_unconfirmed flag, which keys sign); lists are ALL sequences of <= max_actions alphabet entries that pass the balance predicate; such a case is non-trivial when the built transaction has >= 2 inputs or at least one change output (selection or change arithmetic was exercised). (2) chain case = (account, number n of BTM outputs with strictly descending amounts, the address of EVERY output, spend mode, placement, signer pair) built through SpendAccountChain as API.buildTxs does: ALL address assignments over {ext/1, ext/2, chg/1, chg/2} for n <= 3 (thorough 5), ALL assignments over {ext/1, chg/1} up to n = 6 (thorough 10), and for n = 14 (thorough 12..26, three merge levels from 14 on) one branch with at most one output on the other branch in every position; spend modes: all outputs needed with change (every layout, both accounts), all outputs needed exactly and about half of the outputs needed (quick: 1-of-1 account and n <= 5; thorough: all non-deep layouts, both accounts); n = 2 also unconfirmed-only and every 2-of-3 signer pair; a chain case is non-trivial when at least one merge transaction was built")
 
 	// the real pseudo-HSM (scrypt on every XSign) on a few templates per account kind: byte-identical witnesses
 	hsmCompare(run, g, worlds[0], cases)
@@ -126,6 +164,7 @@ func main() {
 	run.Assume("C27: the enumeration signs through a SignFunc over the same keys held in memory (derive + Sign, password checked like the HSM); the real HSM.XSign is run on a few templates per account kind and must give byte-identical transactions")
 	run.Assume("C27: the account's programs are the ones account.Manager.CreateAddress returned; external recipient programs are built byte-by-byte from the key hash")
 	run.Assume("C27: lists in which a generic spend of an (account, asset) precedes a spend of a particular output of the same (account, asset) are outside the domain (the generic reservation may legitimately take that output first)")
+	run.Assume("C27: the chain path is driven by a copy of the loop of API.buildTxs (spend_account -> account.SpendAccountChain, other actions -> Build, then builder.Build) because package api does not build in this tree; one BTM spend_account action and one control_address action per chain request; the merge transactions' inputs are checked against the wallet outputs and the outputs of earlier transactions of the same chain, consensus acceptance of every transaction is validation.ValidateTx")
 	run.Assume("C27: one reservation per source: spend_account actions of one account and asset are merged by MergeSpendAction; two veto actions on one account are not merged and are outside the domain (the second reservation can be refused with 'already reserved' although the sum is funded)")
 	cleanup()
 	run.Finish()
